@@ -1257,6 +1257,26 @@ class _ProbeGlyphName(Val):
 
 _PROBE = _ProbeGlyphName(STR, z3.String("c02_probe_glyph_name"))
 _GT = "self.otf['glyf']"
+
+
+def _sorted_permutation(ex, st, args, kwargs, node):
+    """builtins.sorted(<list of str>, key=...) for this contract: a list with the SAME ELEMENTS and the SAME LENGTH as the argument
+    (python builtin semantics, TRUSTED) — a subset of the engine's `sorted_axioms` facts: the ordering itself is not needed by any clause
+    here, and the engine's position-witness fact forms a matching loop with the member fact (notes/C01.requests.md item 14)."""
+    from pyvc import models
+
+    (v,) = [models.materialize(ex, a) for a in args]
+    if not (isinstance(v.ty, T.List) and v.ty.elem == STR) or set(kwargs) - {"key"}:
+        raise Unsupported("sorted(): only sorted(<list of str>, key=...) is modelled here", node)
+    s = lift(v)
+    r = z3.Function(fresh_name("sorted_perm"), s.sort(), s.sort())(s)
+    x = z3.Const(fresh_name("sx"), z3.StringSort())
+    st.assume(z3.Length(r) == z3.Length(s))
+    st.assume(z3.ForAll([x], z3.Contains(r, z3.Unit(x)) == z3.Contains(s, z3.Unit(x))))
+    models.seq_member_facts(st, r)
+    return Val(v.ty, r)
+
+
 _SORT_LOOP = "for name in sorted(self.glyphOrder, key=lambda n: maxComponentDepths.get(n, 0))"
 _GCG = "ufo2ft.outlineCompiler:BaseOutlineCompiler.getCompiledGlyphs"
 contract(
@@ -1265,7 +1285,7 @@ contract(
     params={"self": Ref("C02_TTCompiler")},
     globals={"probe": _PROBE},
     calls={_GCG: _GCG + "#C02_TTCompiler.cached", _GCG + "#C02_TTCompiler": _GCG + "#C02_TTCompiler.cached"},
-    sorted_axioms=True,
+    models={"builtins.sorted": _sorted_permutation},
     requires=[
         "'glyf' in self.tables and 'loca' in self.tables",
         # the records were compiled before, one for every name of the order (postcondition `every-name` of getCompiledGlyphs)
@@ -1286,6 +1306,10 @@ contract(
     canaries={"empty-table": f"probe in self.glyphOrder and probe not in {_GT}.glyphs"},
     ghost_vars={"seen": (BOOL, "False")},
     ghost={"glyf[name] = ttGlyph": ["seen = seen or name == probe"]},
+    hints={"ttGlyph = ttGlyphs[name]": [
+        "name == SO[i] and SO[:i + 1] == SO[:i] + [name]",  # the processed prefix grows by exactly this name (pure sequence fact)
+        "(probe in SO[:i + 1]) == ((probe in SO[:i]) or name == probe)",
+    ]},
     locals={"ttGlyphs": Dict(STR, Ref("C02_TTGlyph"))},
     loops={
         _SORT_LOOP: Loop(
@@ -1293,7 +1317,8 @@ contract(
             invariants={
                 "table": "self.otf.get('glyf') is not None and glyf == self.otf['glyf']",
                 "order-kept": "glyf.glyphOrder == self.glyphOrder",
-                "seen-def": "seen == any(SO[a] == probe for a in range(i))",
+                # seen: `probe` is among the names processed so far (membership in the processed PREFIX of the sorted order — no positions)
+                "seen-def": "seen == (probe in SO[:i])",
                 "stored": "implies(seen, probe in glyf.glyphs and glyf.glyphs[probe] == ttGlyphs[probe])",
                 "only": "implies(probe in glyf.glyphs, seen)",
             },
